@@ -51,6 +51,7 @@ def instOf (name : String) : Option Inst :=
     | _, _ => none
   | ["skip", n] => n.toNat?.map fun n => mkInt (Relay.machine (Relay.skip n))
   | ["take", n] => n.toNat?.map fun n => mkInt (Take.machine Int n)
+  | ["take0", n] => n.toNat?.map fun n => mkInt (Take.machine Int n false)
   | ["merge", n] => n.toNat?.map fun n => mkInt (Merge.machine Int n true)
   | ["merge0", n] => n.toNat?.map fun n => mkInt (Merge.machine Int n false)
   | ["concat", n] => n.toNat?.map fun n => mkInt (Concat.machine Int n)
